@@ -444,6 +444,22 @@ theorem run_stale_at {α : Type} (g : Graph) (child : Nat → α → α) :
       simp only [hn] at h
       simp [ih f'' st' (by omega) h]
 
+/-- Re-polling today's iterator through its `None`s yields exactly the corrected variant's items. -/
+theorem pollTrace_items {α : Type} (g : Graph) (child : Nat → α → α) :
+    ∀ (f : Nat) (st : St α), (pollTrace g child f st).filterMap id = (runFixed g child f st).items := by
+  intro f
+  induction f with
+  | zero => intro st; rfl
+  | succ f ih =>
+    intro st
+    rw [runFixed_succ]
+    simp only [pollTrace]
+    cases hn : next g child st with
+    | done => rfl
+    | panic => rfl
+    | stale st' => simp [ih st']
+    | item x st' => simp [ih st']
+
 /-! ## 5. Payload morphisms: the three iterators are projections of one search -/
 
 def St.map {α β : Type} (h : α → β) (st : St α) : St β := ⟨st.stack.map (fun e => (e.1, h e.2)), st.visited⟩
